@@ -7,6 +7,8 @@ package segment
 
 //@ pure timeNow
 
+// add counts every segment index once: a segment that is already in (a duplicated datagram) changes
+// nothing, so a duplicate plus a loss can never complete a message with a hole in it.
 //@ func (*ReadBuffer).add
 //@   props C14
 //@   nopanic
@@ -15,9 +17,11 @@ package segment
 //@   ensures unchanged(b.Msgs)
 //@   ensures imp(old(len(b.Msgs)) <= segIdx, !result1 && result0 == nil && unchanged(b.SegCount) && unchanged(b.MsgSize))
 //@   ensures imp(old(len(b.Msgs)) <= segIdx, forall(j, int, imp(0 <= j && j < len(b.Msgs), b.Msgs[j] == old(b.Msgs[j]))))
-//@   ensures imp(segIdx < old(len(b.Msgs)), b.SegCount == old(b.SegCount) + 1 && b.MsgSize == old(b.MsgSize) + len(bs))
-//@   ensures imp(segIdx < old(len(b.Msgs)), b.Msgs[segIdx] == bs && forall(j, int, imp(0 <= j && j < len(b.Msgs) && j != segIdx, b.Msgs[j] == old(b.Msgs[j]))))
-//@   ensures result1 == (segIdx < old(len(b.Msgs)) && old(len(b.Msgs)) == old(b.SegCount) + 1)
+//@   ensures imp(segIdx < old(len(b.Msgs)) && old(b.Msgs[segIdx]) != nil, !result1 && result0 == nil && unchanged(b.SegCount) && unchanged(b.MsgSize))
+//@   ensures imp(segIdx < old(len(b.Msgs)) && old(b.Msgs[segIdx]) != nil, forall(j, int, imp(0 <= j && j < len(b.Msgs), b.Msgs[j] == old(b.Msgs[j]))))
+//@   ensures imp(segIdx < old(len(b.Msgs)) && old(b.Msgs[segIdx]) == nil, b.SegCount == old(b.SegCount) + 1 && b.MsgSize == old(b.MsgSize) + len(bs))
+//@   ensures imp(segIdx < old(len(b.Msgs)) && old(b.Msgs[segIdx]) == nil, b.Msgs[segIdx] != nil && imp(bs != nil, b.Msgs[segIdx] == bs) && len(b.Msgs[segIdx]) == len(bs) && forall(j, int, imp(0 <= j && j < len(b.Msgs) && j != segIdx, b.Msgs[j] == old(b.Msgs[j]))))
+//@   ensures result1 == (segIdx < old(len(b.Msgs)) && old(b.Msgs[segIdx]) == nil && old(len(b.Msgs)) == old(b.SegCount) + 1)
 
 //@ func (*ReadBuffers).Receive
 //@   props C14
